@@ -1,6 +1,7 @@
 package cache
 
 import (
+	"fmt"
 	"strconv"
 	"strings"
 
@@ -222,6 +223,17 @@ func corpus(e *ev.Env) {
 			e.Inconclusive("storage-keeps-slices control produced too few hits")
 		}
 	})
+	// keys that differ only in letter case, default and custom KeyGenerator
+	for _, kg := range []int{0, 2} {
+		for _, vs := range []bool{false, true} {
+			name := fmt.Sprintf("keys-differing-in-case/keygen%d-%s", kg, conf{VStore: vs}.backend())
+			e.Corpus(name, func(c *ev.Case) {
+				cf := conf{Exp: 5, VStore: vs, StoreHdr: true, KeyGen: kg}
+				st := []step{get("coupon/Ab12", 100), get("coupon/aB12", 100), get("coupon/Ab12", 1), get("coupon/aB12", 1), get("coupon/ab12", 50), get("COUPON/AB12", 60), get("coupon/ab12", 1), get("coupon/Ab12", 1)}
+				runHistory(e, c, cf, st, false)
+			})
+		}
+	}
 	// CacheInvalidator returns true for a key the external storage does not hold: manager.get
 	// hands out a zero item (heapidx 0), the middleware marks it expired and removes heap index 0.
 	e.Corpus("invalidator-absent-entry-empty-heap", func(c *ev.Case) {
